@@ -151,7 +151,39 @@ fn midi_case(w: [u32; 6], max_ops: usize) -> BoxedStrategy<MidiCase> {
         .boxed()
 }
 
+/// echo motif: complete copies of own-channel messages sent on another channel right before (or after) the original,
+/// as layered / multi-channel controllers do - foreign traffic that carries exactly the data of the listened channel
+fn with_foreign_echo(c: MidiCase, pattern: u64, mode: u8) -> MidiCase {
+    if mode == 0 {
+        return c;
+    }
+    let mut ops = Vec::with_capacity(c.ops.len() * 2);
+    for (i, op) in c.ops.into_iter().enumerate() {
+        let echo = pattern >> (i % 64) & 1 == 1;
+        if let (true, MidiOp::Chan { kind, own: true, d1, d2, .. }) = (echo, &op) {
+            let copy = MidiOp::Chan { kind: *kind, own: false, other: (pattern >> 8) as u8 % 15, d1: *d1, d2: *d2, rs: false };
+            if mode == 1 {
+                ops.push(copy);
+                ops.push(op);
+            } else {
+                ops.push(op);
+                ops.push(copy);
+            }
+        } else {
+            ops.push(op);
+        }
+    }
+    MidiCase { channel: c.channel, ops }
+}
+
 fn midi_case_plain(w: [u32; 6], max_ops: usize) -> BoxedStrategy<MidiCase> {
+    midi_case_base(w, max_ops)
+        .prop_flat_map(|c| (Just(c), any::<u64>(), prop_oneof![5 => Just(0u8), 1 => Just(1u8), 1 => Just(2u8)]))
+        .prop_map(|(c, pattern, mode)| with_foreign_echo(c, pattern, mode))
+        .boxed()
+}
+
+fn midi_case_base(w: [u32; 6], max_ops: usize) -> BoxedStrategy<MidiCase> {
     (prop_oneof![4 => 0u8..16, 1 => 16u8..=255], pool())
         .prop_flat_map(move |(ch, pool)| {
             let op = prop_oneof![
